@@ -233,12 +233,13 @@ def conv(e, cx, want):
             return '(stencil_slot %s %d)' % (cx.stencils[e[1][1]], cx.positions[pos])
         if k == 'call' and e[1][0] == 'mem' and grid_obj(e[1][1]):
             fn = e[1][2]
+            coarse = e[1][1][1] == 'coarseGrid'
             if fn == 'nr' and not e[2]:
-                return 'nr'
+                return 'nrc' if coarse else 'nr'
             if fn == 'ntheta' and not e[2]:
-                return 'nth'
+                return 'nthc' if coarse else 'nth'
             if fn == 'numberSmootherCircles' and not e[2]:
-                return 'nsc'
+                return 'nscc' if coarse else 'nsc'
             if fn == 'wrapThetaIndex' and len(e[2]) == 1:
                 return '(wrapT %s %s)' % (nth_of(e[1][1]), conv(e[2][0], cx, 'int'))
         raise TranslateError('not an integer expression: %r' % (e,))
@@ -320,6 +321,60 @@ def assigned_muts(stmts, cx):
     return out
 
 
+def is_local_update(st, cx):
+    return st[0] == 'write' and re.fullmatch(r'[A-Za-z_]\w*', st[1]) is not None and cx.reals.get(st[1]) == st[1] and st[1] not in cx.mut
+
+
+def updated_locals(st, cx):
+    out = set()
+    if st[0] == 'if':
+        for _, blk in st[1]:
+            for s2 in blk:
+                if is_local_update(s2, cx):
+                    out.add(s2[1])
+                elif s2[0] == 'if':
+                    out |= updated_locals(s2, cx)
+    return out
+
+
+def has_writes(st):
+    if st[0] == 'if':
+        return any(has_writes(s2) for _, blk in st[1] for s2 in blk)
+    if st[0] == 'write':
+        return '[' in st[1]
+    return st[0] == 'macrocall'
+
+
+def emit_value(stmts, cx, name):
+    """the value of the local `name` after the statements (which may declare locals and update `name`), as a Coq expression"""
+    if not stmts:
+        return name
+    st, rest = stmts[0], stmts[1:]
+    if st[0] == 'decl':
+        _, ty, nm, ex = st
+        ast = parse_expr(ex)
+        if ty == 'double':
+            val = conv(ast, cx, 'real')
+            cx.reals[nm] = nm
+            return 'let %s : S := %s in %s' % (nm, val, emit_value(rest, cx, name))
+        try:
+            node = conv(ast, cx, 'node')
+        except TranslateError:
+            node = None
+        if node is not None:
+            cx.nodes[nm] = node
+            return emit_value(rest, cx, name)
+        val = conv(ast, cx, 'int')
+        cx.ints[nm] = nm
+        return 'let %s : Z := %s in %s' % (nm, val, emit_value(rest, cx, name))
+    if is_local_update(st, cx):
+        val = conv(parse_expr(st[3]), cx, 'real')
+        v = st[1]
+        newv = {'=': val, '+=': '(%s + %s)' % (v, val), '-=': '(%s - %s)' % (v, val), '*=': '(%s * %s)' % (v, val)}[st[2]]
+        return 'let %s : S := %s in %s' % (v, newv, emit_value(rest, cx, name))
+    raise TranslateError('statement outside the grammar inside a value-only branch: %r' % (st[:2],))
+
+
 def emit_block(stmts, cx, ind):
     """Coq term of type list write for the statement list"""
     if not stmts:
@@ -355,6 +410,12 @@ def emit_block(stmts, cx, ind):
             raise TranslateError('alias of an unknown stencil %s' % st[2])
         cx.stencils[st[1]] = cx.stencils[st[2]]
         return emit_block(rest, cx, ind)
+    if st[0] == 'write' and re.fullmatch(r'[A-Za-z_]\w*', st[1]) and cx.reals.get(st[1]) == st[1] and st[1] not in cx.mut:
+        # update of a local double that was declared with an initialiser: a shadowing let
+        name = st[1]
+        val = conv(parse_expr(st[3]), cx, 'real')
+        newv = {'=': val, '+=': '(%s + %s)' % (name, val), '-=': '(%s - %s)' % (name, val), '*=': '(%s * %s)' % (name, val)}[st[2]]
+        return 'let %s : S := %s in\n%s%s' % (name, newv, pad, emit_block(rest, cx, ind))
     if st[0] == 'macrocall':
         if st[1] != 'UPDATE_MATRIX_ELEMENT' or len(st[2]) != 5:
             raise TranslateError('unknown macro call %s' % st[1])
@@ -401,6 +462,24 @@ def emit_block(stmts, cx, ind):
         return '((%s, %s), W_%s_%s, %s)\n%s:: %s' % (tgt[0], tgt[1], l[1][1], kind, val, pad, emit_block(rest, cx, ind))
     if st[0] == 'scope':
         return '(%s)\n%s++ %s' % (emit_block(st[1], cx.fork(), ind + 2), pad, emit_block(rest, cx, ind))
+    if st[0] == 'if' and updated_locals(st, cx):
+        ups = sorted(updated_locals(st, cx))
+        if has_writes(st):
+            raise TranslateError('an if statement both writes to memory and updates a local')
+        out = ''
+        for v in ups:
+            e = ''
+            closed = False
+            for cond, blk in st[1]:
+                if cond is None:
+                    e += '(%s)' % emit_value(blk, cx.fork(), v)
+                    closed = True
+                    break
+                e += 'if %s then (%s) else ' % (conv(parse_expr(cond), cx, 'bool'), emit_value(blk, cx.fork(), v))
+            if not closed:
+                e += v
+            out += 'let %s : S := (%s) in\n%s' % (v, e, pad)
+        return out + emit_block(rest, cx, ind)
     if st[0] == 'if':
         txt = ''
         closing = ''
@@ -572,6 +651,30 @@ def gen_prolongation(src, macro='FINE_NODE_PROLONGATION', fn_name='applyProlonga
     return emit_block(parse_block(body), cx, 4)
 
 
+def gen_restriction(src):
+    clean = strip_comments(src)
+    body = find_function_body(clean, r'void\s+Interpolation::applyRestriction\s*\(')
+    m = re.search(r'const\s+int\s+coarseNumberSmootherCircles\s*=\s*coarseGrid\.numberSmootherCircles\(\)\s*;', body)
+    if not m:
+        raise TranslateError('applyRestriction: coarseNumberSmootherCircles is not coarseGrid.numberSmootherCircles()')
+    loops = innermost_loops(body)
+    if len(loops) != 2:
+        raise TranslateError('applyRestriction: expected 2 doubly nested loops, found %d' % len(loops))
+    res = []
+    for oh, ih, pre, blk in loops:
+        cx = Ctx(arrays2={'x': 'x', 'result': 'result'}, arrays1={}, own2={}, own1={},
+                 int_names={'i_r_coarse': 'ic', 'i_theta_coarse': 'jc', 'coarseNumberSmootherCircles': 'nscc'}, real_names={}, bools={})
+        rng = {}
+        for hdr in (oh, ih):
+            mm = re.match(r'int (i_r_coarse|i_theta_coarse) = (.+?); (\w+) < (.+?); (\w+)\+\+$', hdr)
+            if not mm or mm.group(1) != mm.group(3) or mm.group(1) != mm.group(5):
+                raise TranslateError('applyRestriction: loop header outside the grammar: %s' % hdr)
+            rng[mm.group(1)] = (conv(parse_expr(mm.group(2)), cx, 'int'), conv(parse_expr(mm.group(4)), cx, 'int'))
+        dom = '((%s <=? ic) && (ic <? %s) && (%s <=? jc) && (jc <? %s))%%Z' % (rng['i_r_coarse'][0], rng['i_r_coarse'][1], rng['i_theta_coarse'][0], rng['i_theta_coarse'][1])
+        res.append((dom, emit_block(parse_block(pre) + parse_block(blk), cx, 4), oh, ih))
+    return res
+
+
 def give_call_sites(src):
     """the arguments NODE_APPLY_A_GIVE is invoked with must be the node's own cached / computed values"""
     calls = re.findall(r'NODE_APPLY_A_GIVE\s*\(([^;]*?)\)\s*;', strip_comments(src), flags=re.S)
@@ -655,7 +758,7 @@ Definition wrapT (n x : Z) : Z := x mod n.
 Section StencilGen.
   Context {S : Sc}.
   Local Open Scope sc_scope.
-  Variable nr nth nsc nthc : Z.
+  Variable nr nth nsc nthc nrc nscc : Z.
   Variable h k rad thetaf sin_cache cos_cache : Z -> S.
   Variable dFx_dr dFy_dr dFx_dt dFy_dt : Z -> Z -> S.
   Variable arr att art det : Z -> Z -> S.
@@ -691,6 +794,7 @@ def main():
         prol = gen_prolongation(open(os.path.join(REPO, 'src/Interpolation/prolongation.cpp')).read())
         exprol = gen_prolongation(open(os.path.join(REPO, 'src/Interpolation/extrapolated_prolongation.cpp')).read(),
                                   'FINE_NODE_EXTRAPOLATED_PROLONGATION', 'applyExtrapolatedProlongation')
+        restr = gen_restriction(open(os.path.join(REPO, 'src/Interpolation/restriction.cpp')).read())
         sm_src = open(os.path.join(REPO, 'src/Smoother/SmootherTake/smootherSolver.cpp')).read()
         asc_c = gen_asc_ortho_take(sm_src, 'NODE_APPLY_ASC_ORTHO_CIRCLE_TAKE')
         asc_r = gen_asc_ortho_take(sm_src, 'NODE_APPLY_ASC_ORTHO_RADIAL_TAKE')
@@ -713,6 +817,10 @@ def main():
     out += '  Definition gen_prolongation (x : Z -> Z -> S) (i j : Z) : list gwrite :=\n    %s.\n' % prol
     out += '  (* FINE_NODE_EXTRAPOLATED_PROLONGATION (src/Interpolation/extrapolated_prolongation.cpp) *)\n'
     out += '  Definition gen_extrapolated_prolongation (x : Z -> Z -> S) (i j : Z) : list gwrite :=\n    %s.\n' % exprol
+    for nm, (dom, term, oh, ih) in zip(['circle', 'radial'], restr):
+        out += '  (* applyRestriction (src/Interpolation/restriction.cpp), loop nest  for (%s) for (%s); x indexed by fine nodes *)\n' % (oh, ih)
+        out += '  Definition gen_restriction_%s_visits (ic jc : Z) : bool := %s.\n' % (nm, dom)
+        out += '  Definition gen_restriction_%s (x : Z -> Z -> S) (ic jc : Z) : list gwrite :=\n    %s.\n' % (nm, term)
     out += '\n  (* ---- take smoother: NODE_APPLY_ASC_ORTHO_CIRCLE_TAKE / _RADIAL_TAKE (src/Smoother/SmootherTake/smootherSolver.cpp) ---- *)\n'
     out += '  Definition gen_asc_ortho_circle_take (rhs x : Z -> Z -> S) (i j : Z) : list gwrite :=\n    %s.\n' % asc_c
     out += '  Definition gen_asc_ortho_radial_take (rhs x : Z -> Z -> S) (i j : Z) : list gwrite :=\n    %s.\n' % asc_r
